@@ -188,6 +188,8 @@ func (rs *ReferenceScope) CreateScopeForRecordEvaluation(view *View, recordIndex
 	records[0] = NewReferenceRecord(view, recordIndex, view.FieldLen())
 	for i := range rs.Records {
 		records[i+1] = rs.Records[i]
+		// The new scope may belong to another goroutine: do not share the unsynchronized cache.
+		records[i+1].cache = NewFieldIndexCache(rs.Records[i].view.FieldLen(), LimitToUseFieldIndexSliceChache)
 	}
 	return rs.createScope(records)
 }
@@ -201,6 +203,7 @@ func (rs *ReferenceScope) CreateScopeForAnalytics() *ReferenceScope {
 	records[0] = NewReferenceRecord(rs.Records[0].view, -1, rs.Records[0].view.FieldLen())
 	for i := 1; i < len(rs.Records); i++ {
 		records[i] = rs.Records[i]
+		records[i].cache = NewFieldIndexCache(rs.Records[i].view.FieldLen(), LimitToUseFieldIndexSliceChache)
 	}
 	return rs.createScope(records)
 }
